@@ -323,6 +323,13 @@ class Builder:
         self.feat.add("inputs-as-property")
         return f"({{inputs: {{zz: {self.expr(d)}}}}}).inputs.zz"
 
+    def with_call(self, value: str) -> str:
+        """Make sure helper functions declared so far (body or expressionLib) are really called."""
+        if self.funcs and self.chance(85):
+            call = self.pick(self.funcs)
+            return self.pick([f"{call} + {value}", f"[{call}, {value}]", f"({value}, {call})"])
+        return value
+
     # ---- statements (top-level of a `${...}` body unless self.in_function)
     def stmt_var(self, depth: int) -> list[str]:
         v = self.newvar()
@@ -639,12 +646,15 @@ def _js_segment(b: Builder, cls: str) -> str:
         return "$(" + b.expr(2) + ")"
     if cls == "expr-mixed":
         return "$(" + b.expr(2) + ")"
+    if cls == "expr-lib":
+        return "$(" + b.with_call(b.expr(1)) + ")"
     if cls == "body-simple":
-        return b.wrap_body(b.body(1, ["var"], 2), b.expr(1))
+        return b.wrap_body(b.body(1, ["var"], 2), b.with_call(b.expr(1)))
     if cls == "body-control":
         return b.wrap_body(b.body(0, ["var", "control", "control"], 2), b.expr(1))
     if cls == "body-functions":
-        return b.wrap_body(b.body(1, ["function", "function", "var"], 2), b.expr(1))
+        lines = b.body(1, ["function", "function", "var"], 2)
+        return b.wrap_body(lines, b.with_call(b.expr(1)))
     if cls == "body-alias-assign":
         lines = b.body(0, ["var", "comment"], 2) if b.chance(40) else []
         lines += b.stmt_alias_assign()
@@ -666,7 +676,7 @@ def js_plain_cases(draw):
     lib = None
     if cls == "lib":
         lib = _make_lib(b)
-        inner = b.pick(["expr-mixed", "body-simple", "body-functions"])
+        inner = b.pick(["expr-lib", "body-simple", "body-functions"])
         expr = _js_segment(b, inner)
     elif cls == "interp":
         parts = [b.pick(_TEXT)]
